@@ -213,8 +213,9 @@ where
         //
         let counter = HashMap::<u64, u64>::new();
         //
-        let mut rng = ThreadRng::default();
-        let seed = rng.next_u64();
+        let rng = ThreadRng::default();
+        // fixed default seed, so that two instances hash identically. See change_rng_seed to vary it
+        let seed: u64 = 0x9e3779b97f4a7c15;
         //
         ProbOrdMinHash2 {
             m,
